@@ -61,8 +61,9 @@ Do(op, a) ==
 
 NoArg == [z |-> 0]
 Ns == 0..(hi - lo + 1) \cup BigArgs
-Call == \/ \E op \in {"next", "next_back", "len", "count", "last", "fold", "rfold", "num_cols"} : Do(op, NoArg)
+Call == \/ \E op \in {"next", "next_back", "len", "count", "last", "fold", "rfold", "num_cols", "for_each", "rev_for_each"} : Do(op, NoArg)
         \/ \E op \in {"nth", "nth_back", "index"}, n \in Ns : Do(op, [n |-> n])
+        \/ \E op \in {"find", "rfind", "try_fold", "try_rfold", "position", "rposition"}, n \in 0..(hi - lo + 1) : Do(op, [n |-> n])
 
 Init == /\ \E sh \in Shapes : root = MkRoot(<<sh \div 10, sh % 10>>)
         /\ rkind \in RootKinds
